@@ -299,6 +299,93 @@ func ruleSelectScope(c *Ctx) {
 		if !found {
 			c.note("SELECT executor does not call SetDatabase itself (the handler must)")
 		}
+		// once a call that stores the id has succeeded, the executor answers success
+		writers := map[*ssa.Function]bool{}
+		for _, fn := range c.P.RepoFuncs(pkgRedis) {
+			allInstrs(fn, func(ins ssa.Instruction) {
+				if st, ok := ins.(*ssa.Store); ok {
+					if owner, f, base, ok := fieldOf(st.Addr); ok && owner == "redis.Conn" && f == "id" {
+						if _, isAlloc := strip(base).(*ssa.Alloc); !isAlloc {
+							writers[fn] = true
+						}
+					}
+				}
+			})
+		}
+		isWriterCall := func(call *ssa.Call) bool {
+			cc := call.Common()
+			if cc.IsInvoke() {
+				return cc.Method.Name() == "Select"
+			}
+			f := staticCallee(cc)
+			return f != nil && writers[f]
+		}
+		type st struct {
+			Done    bool
+			Pending *ssa.Call
+			NilOf   *ssa.Call
+		}
+		a := &Auto[st]{Fn: e.Fn, Init: st{},
+			Step: func(s st, ins ssa.Instruction, fail func(string)) []st {
+				switch x := ins.(type) {
+				case *ssa.Call:
+					if isWriterCall(x) {
+						res := x.Common().Signature().Results()
+						if res.Len() > 0 && isErrorType(res.At(res.Len()-1).Type()) {
+							s.Pending = x
+						} else {
+							s.Done = true
+						}
+					}
+				case *ssa.Return:
+					if x.Block() == e.Fn.Recover || len(x.Results) == 0 {
+						break
+					}
+					last := strip(retOperand(x, len(x.Results)-1))
+					if !isErrorType(x.Results[len(x.Results)-1].Type()) || isNilConst(last) {
+						break
+					}
+					if ex, ok := last.(*ssa.Extract); ok && s.NilOf != nil && ex.Tuple == ssa.Value(s.NilOf) {
+						break // the error of the writer itself, known to be nil on this path
+					}
+					if s.Done || s.Pending != nil {
+						fail("the SELECT executor can return an error after a call that stores the connection's database id has succeeded: the client is told the SELECT failed while its connection has moved")
+					}
+				}
+				return []st{s}
+			},
+			Edge: func(s st, b *ssa.BasicBlock, idx int) (st, bool) {
+				for _, at := range edgeOnly(b, idx) {
+					if at.Kind != "nil" {
+						continue
+					}
+					ex, ok := at.X.(*ssa.Extract)
+					if !ok {
+						// a single error result
+						if call, isCall := at.X.(*ssa.Call); isCall && s.Pending == call {
+							if at.Pos {
+								s.Done, s.NilOf = true, call
+							}
+							s.Pending = nil
+						}
+						continue
+					}
+					if call, isCall := ex.Tuple.(*ssa.Call); isCall && s.Pending == call {
+						if at.Pos {
+							s.Done, s.NilOf = true, call
+						}
+						s.Pending = nil
+					}
+				}
+				return s, true
+			}}
+		res := a.Run()
+		if len(res.Errs) == 0 {
+			c.ok(rid, "executor:SELECT/no-error-after-the-id-moved", c.P.pos(e.Fn.Pos()), "no error return follows a successful call that stores the database id")
+		}
+		for i, er := range res.Errs {
+			c.bad(rid, fmt.Sprintf("executor:SELECT/no-error-after-the-id-moved#%d", i), c.P.instrPos(er.Ins), er.Msg, er.witness(c.P)...)
+		}
 	}
 }
 
